@@ -130,7 +130,7 @@ TEXT = {
     },
     "C12": {
         "text": "Theorem C12_schedule: for EVERY delivery stream in which nothing is accepted (silence or any stream of rejected same-id datagrams) exactly n transmissions at T(2^k - 1) and the "
-                "no-response error at T(2^n - 1), for all n, T; unbounded tries follow the schedule prefix-wise; an accepted response ends the call with no further transmission; for EVERY stream (accepted or rejected) and every cancel/close instant the transmissions are an initial segment of the schedule (C12_always_on_schedule) and, on an open client, the no-response error comes only after all n of them (C12_no_response_after_all_tries); the pinned "
+                "no-response error at T(2^n - 1), for all n, T; unbounded tries follow the schedule prefix-wise; an accepted response ends the call with no further transmission; for EVERY stream (accepted or rejected) and every cancel/close instant the transmissions are an initial segment of the schedule (C12_always_on_schedule), a response accepted after k transmissions arrived before try k's deadline (C12_accepted_within_its_try) and, on an open client, the no-response error comes only after all n of them (C12_no_response_after_all_tries); the pinned "
                 "code's re-armed timer is kept as a refutation ([0; 4050], 4150 for T = 50, n = 2). Both real clients are run under virtual time on the grid and compared instant-for-instant.",
         "note": COMMON_NOTE + "testing/synctest's virtual clock is trusted.",
         "technique": "Coq proof (induction over tries and delivery streams) + virtual-time differential harness on both clients",
